@@ -307,6 +307,21 @@ class Glushkov:
         other = next(chr(c) for c in range(1, 256) if chr(c) not in named)
         return sorted(named) + [other]
 
+    def subset_states(self, limit=100000):
+        """number of reachable state sets of the subset construction (incl. the empty set if reached):
+        an upper bound for the minimal DFA"""
+        reps = self.char_classes()
+        seen = {frozenset([0])}
+        todo = [frozenset([0])]
+        while todo and len(seen) < limit:
+            cur = todo.pop()
+            for ch in reps:
+                nxt = self.step(cur, ch)
+                if nxt not in seen:
+                    seen.add(nxt)
+                    todo.append(nxt)
+        return len(seen)
+
     def has_dead_state(self):
         """Is there a string (over chr(0)..chr(255)) that is not a prefix of any word of the
         language?  Every position can reach the end, so this is: the subset construction reaches
